@@ -158,6 +158,17 @@ Theorem C03_sum_totals_scanned : forall q blanks AND sh (c : cfg) E cs (recs : l
 Proof. exact sum_totals_scanned. Qed.
 Print Assumptions C03_sum_totals_scanned.
 
+(** first() against its specification: first.nm(#i) once at top level and its dictionary named nowhere else:
+    after ANY run from the empty state, the entry of a value is the line number of the FIRST scanned line
+    holding it, and a value no scanned line holds has no entry *)
+Theorem C03_first_records_first_scanned : forall q blanks AND sh (c : cfg) E cs (recs : list (line ustring)) nm i key,
+  wf sh -> parse false (ast_of sh) = Some (scanner c) -> q_scan c = false -> end_line c = Some E ->
+  end_of ustring recs = Some E -> will_run c = true -> first_once nm i cs ->
+  dget (x mx (st ustring mx (run_from ustring mx (core_m q blanks AND cs (Some E)) c (rs0 mx (mkMx [] [] [])) None recs))) nm key =
+  option_map VI (first_line i key (filter (want ustring sh) (number 0 recs))).
+Proof. exact first_records_first_scanned. Qed.
+Print Assumptions C03_first_records_first_scanned.
+
 Example C03_tally_once_nonvacuous :
   tally_once 1 [CB (BExists 0); CAgg (Tally 1); CAgg (First 7 1); CAct (Agg (AssignK 5 [116] NCount))] /\
   wf (From 1) /\ parse false (ast_of (From 1)) = Some (mkSc [] (Some 1) None true).
